@@ -85,7 +85,7 @@ ASSUMPTIONS = [
     "dft_subsample='auto' and the concrete window classes are covered by the bounded real-JAX runs only",
     "plane / box extents of the phasor Poynting detectors enumerated (small), values symbolic",
 ]
-MIN_OBLIGATIONS = {"quick": 800, "thorough": 3000}
+MIN_OBLIGATIONS = {"quick": 2500, "thorough": 12000}
 AXIOMS = {"apod": [lambda args, term, apps: [term >= 0]]}
 LEVEL_TEXT = (
     "Deductive proof of the per-step DFT summand identity of the real PhasorDetector.update for all steps, windows, frequencies, strides, fields and "
@@ -635,6 +635,11 @@ def _real_run(case, seed):
         if case.get("orientation") == "inward":
             tot = -tot
         dev = rel(np.asarray(det.compute_net_flux(st)), tot * half)
+        # the stored face phasors themselves (a size-one axis has a vanishing net flux whatever is stored)
+        for kname, rec in st.items():
+            a, side = int(kname[len("phasor_axis")]), kname.rsplit("_", 1)[1]
+            face = np.take(dft, [0 if side == "min" else sizes[a] - 1], axis=2 + a)
+            dev = max(dev, rel(np.asarray(rec)[0], face))
     return dev, f"T={T} recorded steps={list(map(int, tk))} stride={stride} window={apod} mode={mode} detector={kind}: max relative deviation from the DFT of the FieldDetector history = {dev:.3e}"
 
 
@@ -746,9 +751,7 @@ def _configs(tier, seed):
 
 
 def tasks(tier, seed):
-    from props.C16 import _grouped
-
-    out = _grouped(_configs(tier, seed), 15 if tier == "quick" else 40)
+    out = L.grouped(_configs(tier, seed), 15 if tier == "quick" else 40)
     Ts = list(range(1, 8)) if tier == "quick" else list(range(1, 10))
     out["thin/enumeration"] = Task(_thin_task(Ts, (0, 1, 2, 3, 4, 5, 7)))
     cases = _run_cases(tier)
